@@ -36,6 +36,8 @@ Definition run_case (pn : N) (dom : string) (args : list arg) : list string :=
   else if dom =? "hdrnull" then run_hdrnull p
   else if dom =? "find" then
     match args with [AN a; AB bs] => run_find p a bs | _ => bad end
+  else if dom =? "verify" then
+    match args with [AB bs] => run_verify bs | _ => bad end
   else if dom =? "cksum" then
     match args with [AN m; AN a; AN l] => run_cksum m a l | _ => bad end
   else if dom =? "cast" then
